@@ -216,12 +216,17 @@ func c11NoPanic(c *Ctx, r *Report) {
 	n := 0
 	for _, name := range names {
 		fn := c.Method("lint", "Configuration", name)
-		allInstrs(fn, func(in ssa.Instruction) {
+		// (helpers newer than the rules that these functions call are part of the path)
+		allInstrsDeep(fn, func(in ssa.Instruction) {
 			switch x := in.(type) {
 			case *ssa.TypeAssert:
 				n++
 				if x.CommaOk {
-					r.OK("no-panic", fname(fn)+"|assert "+shortType(x.AssertedType)+" (comma-ok)", x.Pos(), false, "")
+					if s := okIgnoredDeref(x.Parent(), x, c.Pos(x.Pos())); s != nil && s.how == "" {
+						r.Bad("no-panic", fname(x.Parent())+"|assert "+shortType(x.AssertedType)+" (ok discarded)", x.Pos(), s.detail+": a configuration entry of another kind (a scalar where a table is expected) makes the result nil and the use panics")
+						return
+					}
+					r.OK("no-panic", fname(x.Parent())+"|assert "+shortType(x.AssertedType)+" (comma-ok)", x.Pos(), false, "")
 					return
 				}
 				key := fname(fn) + "|" + shortType(x.AssertedType)
